@@ -101,6 +101,9 @@ class Scenario:
         self.opn = 0
         self.outcomes = []
         self.prev = None
+        self.snapshots = []
+        self.sent = set()
+        self.is_repeat = False
         self.last_kind = None
         self.last_result = None
 
@@ -193,9 +196,11 @@ class Scenario:
                 w.job_resources = res
                 return fe._create_jobs(dict(w.userdata), specs, 1, 1, app)
             self.run_glue('create_jobs', make)
+        self.sent = {'create_batch', 'jobs1'}
         if commit:
             self.begin('commit')
             self.outcomes.append(('commit1', w.commit_update(1)))
+            self.sent.add('commit1')
 
     # ---- operation alphabet ------------------------------------------------------------------------
     def _job(self, tag):
@@ -239,11 +244,19 @@ class Scenario:
         sel = lambda attr: None
         return fs
 
-    def scheduler_selects(self, j):
+    def selected_earlier(self, j):
+        """The scheduler (or the job-private creator) read its candidate rows at some earlier point of this history
+        — possibly before other operations were applied — so enabledness is evaluated on any earlier snapshot."""
+        out = self.scheduler_selects(j)
+        for snap in self.snapshots:
+            out = b_or(out, self.scheduler_selects(j, snap))
+        return out
+
+    def scheduler_selects(self, j, db=None):
         """The job the scheduler may hand to schedule_job / job-private creating: taken from the WHERE clauses
         of PoolScheduler.schedule_loop_body's queries — group in state 'running', job Ready, and either
         always_run, or the group is not cancelled and the job's cancelled flag is clear."""
-        db = self.db
+        db = db if db is not None else self.db
         out = False
         for f in oracle.jobs(db):
             grp_running = b_or(*[b_and(oracle.i_eq(f.group, g),
@@ -258,7 +271,7 @@ class Scenario:
     def op_schedule(self, tag):
         j, a, i = self._job(tag), self._att(tag), self._inst(tag)
         pres, _ = self._attempt_facts(j, a)
-        self._assume(b_and(self.scheduler_selects(j), b_not(pres)))   # fresh random attempt id
+        self._assume(b_and(self.selected_earlier(j), b_not(pres)))   # fresh random attempt id
         # the scheduler only places jobs on instances it holds as active (schedule_job asserts it); the database row may
         # meanwhile have been deactivated, but it cannot be pending again
         st = self._inst_state(i)
@@ -269,7 +282,7 @@ class Scenario:
     def op_creating(self, tag):
         j, a, i = self._job(tag), self._att(tag), self._inst(tag)
         pres, _ = self._attempt_facts(j, a)
-        self._assume(b_and(self.scheduler_selects(j), b_not(pres)))
+        self._assume(b_and(self.selected_earlier(j), b_not(pres)))
         t = self.inp.int(f'{tag}_time')
         self.begin('mark_job_creating')
         return self.w.call('mark_job_creating', [1, V(j), V(a), V(i), V(t)])
@@ -364,6 +377,28 @@ class Scenario:
             return h(req, dict(w.userdata))
         return self.run_glue('create_job_groups2', make)
 
+    def op_dup_create_batch(self, tag):
+        self.begin('create_batch_again')
+        outs = self.w.create_batch('tokA', n_jobs=self.n1, n_job_groups=self.g1)
+        self.outcomes.append(('create_batch_again', outs))
+        return outs
+
+    def op_dup_jobs1(self, tag):
+        fe, _ = bo.front_end()
+        w = self.w
+
+        def make(app):
+            specs, res = self.job_specs(1, self.n1, 1, 'u1', list(range(0, self.g1 + 1)), 1)
+            w.job_resources = res
+            return fe._create_jobs(dict(w.userdata), specs, 1, 1, app)
+        return self.run_glue('create_jobs_again', make)
+
+    def op_commit1(self, tag):
+        self.begin('commit1')
+        outs = self.w.commit_update(1)
+        self.outcomes.append(('commit1', outs))
+        return outs
+
     def op_update2_commit(self, tag):
         self.begin('commit2')
         outs = self.w.commit_update(2)
@@ -373,13 +408,19 @@ class Scenario:
     OPS = {
         'schedule': op_schedule, 'creating': op_creating, 'started': op_started, 'complete': op_complete,
         'unschedule': op_unschedule, 'deactivate': op_deactivate, 'activate': op_activate, 'cancel_group': op_cancel_group,
-        'u2_create': op_update2_create, 'u2_jobs': op_update2_jobs, 'u2_commit': op_update2_commit, 'u2_groups': op_update2_groups,
+        'u2_create': op_update2_create, 'u2_jobs': op_update2_jobs, 'u2_commit': op_update2_commit, 'u2_groups': op_update2_groups, 'dup_create_batch': op_dup_create_batch,
+        'dup_jobs1': op_dup_jobs1, 'commit1': op_commit1,
     }
 
     def apply(self, kind, idx):
         self.prev = self.db.copy()
+        self.snapshots.append(self.prev)
         self.last_kind = kind
         self.last_args = {}
+        key = {'dup_create_batch': 'create_batch', 'dup_jobs1': 'jobs1'}.get(kind, kind)
+        self.is_repeat = key in self.sent and kind in ('dup_create_batch', 'dup_jobs1', 'u2_create', 'u2_jobs', 'u2_commit',
+                                                       'commit1', 'u2_groups')
+        self.sent = self.sent | {key}
         self.last_result = self.OPS[kind](self, f's{idx}_{kind}')
         return self.last_result
 
@@ -457,6 +498,7 @@ def clone(sc):
     w.db.env_constraints = list(sc.db.env_constraints)
     new.w = w
     new.steps = list(sc.steps)
+    new.snapshots = list(sc.snapshots)
     new.outcomes = list(sc.outcomes)
     return new
 
